@@ -87,14 +87,14 @@ def _where(exc):
 
 FIELD_VALUES = [
     ("url_schemes", "[http, mailto]"), ("url_schemes", "{http: null, x: 'y{{path}}', z: {url: 'u', title: 't', classes: [c]}}"), ("enable_extensions", "[deflist, tasklist, dollarmath, colon_fence, html_image]"),
-    ("disable_syntax", "[emphasis]"), ("disable_syntax", "[math_inline, colon_fence, nosuchrule]"), ("words_per_minute", "0"), ("words_per_minute", "-5"), ("heading_anchors", "3"), ("heading_anchors", "null"), ("fence_as_directive", "[mermaid]"), ("number_code_blocks", "[python]"), ("title_to_header", "true"),
+    ("disable_syntax", "[emphasis]"), ("disable_syntax", "[math_inline, colon_fence, nosuchrule]"), ("suppress_warnings", "[myst]"), ("suppress_warnings", "[myst.directive_unknown, myst.role_unknown, myst.xref_missing, myst.header]"), ("words_per_minute", "0"), ("words_per_minute", "-5"), ("heading_anchors", "3"), ("heading_anchors", "null"), ("fence_as_directive", "[mermaid]"), ("number_code_blocks", "[python]"), ("title_to_header", "true"),
     ("all_links_external", "true"), ("links_external_new_tab", "true"), ("footnote_sort", "false"), ("footnote_transition", "false"), ("html_meta", "{a: b}"), ("substitutions", "{k: v, n: 1, l: [1]}"),
     ("sub_delimiters", "['[', ']']"), ("words_per_minute", "10"), ("heading_slug_func", "myst_parser.config.main._test_slug_func"), ("suppress_warnings", "[myst.header]"),
     ("ref_domains", "[py]"), ("commonmark_only", "true"), ("inventories", "{k: ['https://x.invalid', null]}"), ("highlight_code_blocks", "false"), ("enable_checkboxes", "true"),
     ("dmath_double_inline", "true"), ("nosuchfield", "1"), ("heading_slug_func", "os.path.no_such_function"), ("heading_slug_func", "nomodule.f"), ("heading_slug_func", "nodots"), ("heading_anchors", "99"), ("url_schemes", "3"), ("enable_extensions", "[nosuch]"),
 ]
 BODY = ("# T\n\n### Skip\n\n[a](http://x) [b](mailto:y) [c](x:rest) [d](z:p) <http://auto> [e](other.md) [f](#t) [g](inv:k#x)\n\n```python\ncode\n```\n\n```mermaid\ng\n```\n\n"
-        "- [ ] task\n\nTerm\n: def\n\n$$a$$ $b$\n\n{{ k }} {{ n }} [[ k ]]\n\nx[^1]\n\n[^1]: n\n\n<img src='a.png'>\n\n:::{note}\nz\n:::\n\n*em*\n")
+        "- [ ] task\n\nTerm\n: def\n\n$$a$$ $b$\n\n{{ k }} {{ n }} [[ k ]]\n\nx[^1]\n\n[^1]: n\n\n<img src='a.png'>\n\n:::{note}\nz\n:::\n\n*em*\n\n```{nosuchdirective} arg\nx\n```\n\n{nosuchrole}`x` [](#missing) <path:f.txt> ~~s~~ ![i](j.png){width=bad}\n\n```{note}\n:nosuchopt: 1\n:class: x # c\n\nb\n```\n\n[r]: u1\n[r]: u2\n")
 
 
 def make_overrides(eng):
@@ -614,6 +614,10 @@ def make_names(eng):
 
 # ------------------------------------------------------------ L10b: odd link destinations through a real Sphinx build
 
+SPHINX_DOCS = ["(para-target)=\npara\n\n[](para-target) [](#para-target) [t](para-target) <project:#para-target>\n", "(h-target)=\n## Head\n\n[](h-target) [](#h-target) [](index.md#head) [](#head)\n",
+               "```{nosuchdirective}\nx\n```\n\n{nosuchrole}`x` [](#nolabel) [](nofile.md) <project:nofile.md> <path:nofile.txt> [](index.md#noanchor)\n",
+               "```{figure} a.png\n:name: fig\n\nCap\n```\n\n[](#fig) [](fig) {ref}`fig` {numref}`fig` {doc}`index` {term}`nosuch` {eq}`nosuch`\n",
+               "```{glossary}\nterm one\n  def\n```\n\n[](#term-term-one) {term}`term one` [](<#term one>)\n", "[^a]: fn\n\n(a)=\npara [^a] [](#a) [](a)\n"]
 SPHINX_LINKS = ["[a](%00)", "[c](project:x%00y.md)", "<project:#a%00b>", "[a](inv://[x)", "[a](" + "a" * 300 + ".md)", "[a](sub/" + "b" * 300 + ")", "[a](x%ZZ.md)", "[a](../../../up.md#frag)", "[a](http://[x)", "<project:" + "c" * 300 + ".md>",
                 "[a](nosuch.md#%00)", "[](%00.md)"]
 SPXB = {}
@@ -632,7 +636,10 @@ def run_sphinx_doc(i, real=False):
     try:
         with tempfile.TemporaryDirectory(prefix="symx_c01_") as d:
             open(os.path.join(d, "conf.py"), "w").write("extensions = ['myst_parser']\n")
-            open(os.path.join(d, "index.md"), "w").write("# T\n\nbefore " + SPHINX_LINKS[i] + " after\n")
+            body_ = ("before " + SPHINX_LINKS[i] + " after\n") if i < len(SPHINX_LINKS) else SPHINX_DOCS[(i - len(SPHINX_LINKS)) // 2]
+            sup_ = i >= len(SPHINX_LINKS) and (i - len(SPHINX_LINKS)) % 2 == 1
+            open(os.path.join(d, "conf.py"), "w").write("extensions = ['myst_parser']\nmyst_heading_anchors = 2\nsuppress_warnings = %r\n" % (["myst"] if sup_ else []))
+            open(os.path.join(d, "index.md"), "w").write("# T\n\n" + body_)
             warn = io.StringIO()
             with docutils_namespace(), patch_docutils(d):
                 app = Sphinx(d, d, os.path.join(d, "_build"), os.path.join(d, "_build", ".doctrees"), "dummy", status=None, warning=warn, freshenv=True, parallel=0)
@@ -658,12 +665,12 @@ def make_sphinx_build_links(eng):
 
     def body():
         c.reset()
-        i = c.choose(len(SPHINX_LINKS))
+        i = c.choose(len(SPHINX_LINKS) + 2 * len(SPHINX_DOCS))
         state.update(sphinx_doc=i)
         try:
             run_sphinx_doc(i)
         except Exception as exc:  # noqa
-            eng.fail("sphinx-build-raises", "link %r: %s: %s" % (SPHINX_LINKS[i][:60], type(exc).__name__, str(exc)[:200]))
+            eng.fail("sphinx-build-raises", "document %d: %s: %s" % (i, type(exc).__name__, str(exc)[:200]))
         eng.passed(1)
         eng.note("fault-reported")
         return "ok"
@@ -717,7 +724,7 @@ def families(tier, seed):
                     nontrivial="fault-reported", max_forks=100000))
     F.append(Family("L14-name-clashes", make_names, "%d documents in which one name is used by several targets (footnote label, explicit target, attribute id, directive :name:, heading, math label) x footnote_sort" % len(NAME_CLASH_DOCS),
                     nontrivial="fault-reported", max_forks=100000))
-    F.append(Family("L10b-sphinx-build-links", make_sphinx_build_links, "%d odd link destinations (NUL bytes, over-long names, bad escapes, invalid IPv6 netloc) through a real Sphinx build" % len(SPHINX_LINKS), nontrivial="fault-reported", max_forks=1000))
+    F.append(Family("L10b-sphinx-build-links", make_sphinx_build_links, "%d odd link destinations (NUL bytes, over-long names, bad escapes, invalid IPv6 netloc) and %d documents with links/roles to labels of every kind (untitled, titled, missing; with and without warnings suppressed) through a real Sphinx build" % (len(SPHINX_LINKS), len(SPHINX_DOCS)), nontrivial="fault-reported", max_forks=1000))
     F.append(Family("L10-sphinx-link", make_sphinx_link, "SphinxRenderer.render_link_unknown with destinations incl. over-long path components and NUL", nontrivial="fault-reported", max_forks=100000))
     soup = "#[](>-`{}:\na"
     for n in ([3] if q else [3, 4]):
@@ -779,7 +786,7 @@ def replay(label, witness):
 
         tb = traceback.extract_tb(e.__traceback__)
         where = tb[-1].name if tb else "?"
-        what = witness.get("site") or witness.get("fault") or ("dest" in witness and "sphinx-link") or ("subs" in witness and "substitutions") or ("html" in witness and "html block") or ("sphinx_doc" in witness and "Sphinx build with link %r" % (SPHINX_LINKS[witness["sphinx_doc"]][:60],)) or ("names_doc" in witness and "name-clash document %r" % (NAME_CLASH_DOCS[witness["names_doc"]],)) or ("more" in witness and "%s %r" % (witness["more"][0], witness.get("what"))) or "document"
+        what = witness.get("site") or witness.get("fault") or ("dest" in witness and "sphinx-link") or ("subs" in witness and "substitutions") or ("html" in witness and "html block") or ("sphinx_doc" in witness and "Sphinx build of document %d" % (witness["sphinx_doc"],)) or ("names_doc" in witness and "name-clash document %r" % (NAME_CLASH_DOCS[witness["names_doc"]],)) or ("more" in witness and "%s %r" % (witness["more"][0], witness.get("what"))) or "document"
         return ("C01/exception:%s@%s" % (type(e).__name__, where), "%s %r raised %s: %s" % (what, witness, type(e).__name__, str(e)[:200]))
 
 
